@@ -121,6 +121,12 @@ def graph_is_in_seg_bounds(
         return False, errors
 
     if axes:
+        if len(axes) != segmentation.ndim:
+            errors.append(
+                f"Number of axes in the geff metadata ({len(axes)}) does not match the number "
+                f"of dimensions in the segmentation ({segmentation.ndim})"
+            )
+            return False, errors
         for i, ax in enumerate(axes):
             max_bound = ax.max
             if max_bound is not None:
